@@ -267,8 +267,8 @@ class Stream:
             self._set_cold_stream_min_max_temperatures()
         else:
             if isinstance(self._heat_flow, float | int):
-                if self._heat_flow > 0.0:
-                    # Cold stream
+                if self._heat_flow >= 0.0:
+                    # Cold stream (a zero-duty isothermal stream is treated the same way)
                     self._t_target = self._t_supply + 0.01
                     self._set_cold_stream_min_max_temperatures()
                 elif self._heat_flow < 0.0:
